@@ -400,3 +400,207 @@ theorem pushLink_objs_len (rc : Nat → List Nat → Val → Sections → Except
   exact applyActs_inv (ListLen p os.length) acts (dropLastStep p) names hacts s2 s' ha h2
 
 end Aoe.Props.CommitFrame
+
+namespace Aoe.Props.CommitFrame
+open Aoe Aoe.Codec Aoe.Lens Aoe.Commit Aoe.Props.Links
+open Aoe.Props.C05 (Diverge frame get_set)
+
+/-! ## child objects write strictly below their own record -/
+
+/-- `w` lies strictly below element `i` of the list at `p` -/
+def Below (p : List Step) (i : Nat) (w : List Step) : Prop := ∃ r, w = p ++ Step.idx i :: r
+
+theorem pres_len_of_below (p w : List Step) (n i : Nat) (h : Below p i w) : Pres (ListLen p n) w := by
+  obtain ⟨r, rfl⟩ := h
+  exact pres_len_below p n i r
+
+theorem resolve_append (hist : List Nat) (a b : List PStep) :
+    resolve hist (a ++ b) = (resolve hist a).bind (fun pa => (resolve hist b).map (pa ++ ·)) := by
+  induction a with
+  | nil => simp [resolve]
+  | cons x a ih =>
+    cases x with
+    | fld i =>
+      simp only [List.cons_append, resolve, ih]
+      cases resolve hist a <;> cases resolve hist b <;> simp
+    | hidx k =>
+      simp only [List.cons_append, resolve, ih]
+      cases hist[k]? with
+      | none => simp
+      | some n => cases resolve hist a <;> cases resolve hist b <;> simp
+
+theorem resolve_ext (hist : List Nat) (i : Nat) (path : List PStep) (p : List Step)
+    (h : resolve hist path = some p) : resolve (hist ++ [i]) path = some p := by
+  induction path generalizing p with
+  | nil => simpa [resolve] using h
+  | cons x path ih =>
+    cases x with
+    | fld j =>
+      simp only [resolve] at h ⊢
+      cases hr : resolve hist path with
+      | none => simp [hr] at h
+      | some q => simp only [hr, Option.map] at h; rw [ih q hr]; simpa using h
+    | hidx k =>
+      simp only [resolve] at h ⊢
+      cases hk : hist[k]? with
+      | none => simp [hk] at h
+      | some n =>
+        simp only [hk] at h
+        have hlt : k < hist.length := by
+          rcases List.getElem?_eq_some_iff.mp hk with ⟨h', _⟩; exact h'
+        have : (hist ++ [i])[k]? = some n := by
+          rw [List.getElem?_append_left hlt]; exact hk
+        simp only [this]
+        cases hr : resolve hist path with
+        | none => simp [hr] at h
+        | some q => simp only [hr, Option.map] at h; rw [ih q hr]; simpa using h
+
+theorem resolve_length (hist : List Nat) (path : List PStep) (p : List Step) (h : resolve hist path = some p) :
+    p.length = path.length := by
+  induction path generalizing p with
+  | nil => simp only [resolve, Option.some.injEq] at h; subst h; rfl
+  | cons x path ih =>
+    cases x with
+    | fld j =>
+      simp only [resolve] at h
+      cases hr : resolve hist path with
+      | none => simp [hr] at h
+      | some q => simp only [hr, Option.map, Option.some.injEq] at h; subst h; simp [ih q hr]
+    | hidx k =>
+      simp only [resolve] at h
+      cases hk : hist[k]? with
+      | none => simp [hk] at h
+      | some n =>
+        simp only [hk] at h
+        cases hr : resolve hist path with
+        | none => simp [hr] at h
+        | some q => simp only [hr, Option.map, Option.some.injEq] at h; subst h; simp [ih q hr]
+
+/-- a child's link path: the parent's list path, the child's own index, then at least one more step -/
+def pathBelow (pp : List PStep) (k : Nat) (path : List PStep) : Bool :=
+  decide (path.take (pp.length + 1) = pp ++ [PStep.hidx k]) && decide (pp.length + 1 < path.length)
+
+def actsSelf (acts : List RefreshAct) : Bool :=
+  acts.all (fun a => match a.dest with | .self _ => true | .sec _ _ => false)
+
+/-- every link of class `cls` (and, recursively, of its child classes) addresses a place strictly below the record
+`hidx k` of the list at `pp`, and refreshes only fields of the record that holds the pushed retriever -/
+def wellNested (classes : List ClassSpec) : Nat → Nat → List PStep → Nat → Bool
+  | 0, _, _, _ => true
+  | fuel + 1, cls, pp, k =>
+    match classes[cls]? with
+    | none => true
+    | some c => c.links.all (fun l =>
+        match l.2 with
+        | .plain path acts _ => pathBelow pp k path && actsSelf acts
+        | .objs path ccls _ _ _ acts _ => pathBelow pp k path && actsSelf acts && wellNested classes fuel ccls path (k + 1)
+        | _ => true)
+
+/-- resolving a child's link path at the child's history -/
+theorem resolve_child (hist : List Nat) (i : Nat) (pp path : List PStep) (p : List Step)
+    (hp : resolve hist pp = some p) (hb : pathBelow pp hist.length path = true) (q : List Step)
+    (hq : resolve (hist ++ [i]) path = some q) : ∃ r, r ≠ [] ∧ q = p ++ Step.idx i :: r := by
+  simp only [pathBelow, Bool.and_eq_true, decide_eq_true_eq] at hb
+  obtain ⟨htake, hlen⟩ := hb
+  have hsplit : path = (pp ++ [PStep.hidx hist.length]) ++ path.drop (pp.length + 1) := by
+    rw [← htake]; exact (List.take_append_drop _ _).symm
+  rw [hsplit, resolve_append, resolve_append, resolve_ext hist i pp p hp] at hq
+  have hk : (hist ++ [i])[hist.length]? = some i := by simp
+  simp only [resolve, hk, Option.map, Option.bind] at hq
+  cases hr : resolve (hist ++ [i]) (List.drop (pp.length + 1) path) with
+  | none => simp [hr] at hq
+  | some r =>
+    simp only [hr, Option.some.injEq] at hq
+    refine ⟨r, ?_, ?_⟩
+    · intro hnil
+      have := resolve_length _ _ _ hr
+      rw [hnil] at this
+      simp at this
+      omega
+    · rw [← hq]; simp
+
+end Aoe.Props.CommitFrame
+
+namespace Aoe.Props.CommitFrame
+open Aoe Aoe.Codec Aoe.Lens Aoe.Commit Aoe.Props.Links
+open Aoe.Props.C05 (Diverge frame get_set)
+
+theorem below_trans (p : List Step) (i : Nat) (r w : List Step) (j : Nat)
+    (h : Below (p ++ Step.idx i :: r) j w) : Below p i w := by
+  obtain ⟨r2, rfl⟩ := h
+  exact ⟨r ++ Step.idx j :: r2, by simp⟩
+
+theorem dropLast_below (p : List Step) (i : Nat) (r : List Step) (hr : r ≠ []) (x : Step) :
+    Below p i (dropLastStep (p ++ Step.idx i :: r) ++ [x]) := by
+  refine ⟨r.dropLast ++ [x], ?_⟩
+  unfold dropLastStep
+  have : (p ++ Step.idx i :: r).dropLast = p ++ Step.idx i :: r.dropLast := by
+    rw [List.dropLast_append_of_ne_nil (by simp)]
+    congr 1
+    cases r with
+    | nil => exact absurd rfl hr
+    | cons a r => simp [List.dropLast]
+  rw [this]; simp
+
+/-- **the footprint of a child object lies strictly below the child's own record** (for well-nested class tables) -/
+theorem foot_below (classes : List ClassSpec) (fuel : Nat) :
+    ∀ (cls : Nat) (pp : List PStep) (hist : List Nat) (i : Nat) (obj : Val) (p : List Step),
+      resolve hist pp = some p → wellNested classes fuel cls pp hist.length = true →
+      ∀ w ∈ foot classes fuel cls (hist ++ [i]) obj, Below p i w := by
+  induction fuel with
+  | zero => intro cls pp hist i obj p _ _ w hw; simp [foot] at hw
+  | succ fuel ih =>
+    intro cls pp hist i obj p hp hwn w hw
+    simp only [foot] at hw
+    cases hc : classes[cls]? with
+    | none => simp [hc] at hw
+    | some c =>
+      cases obj with
+      | strct vals =>
+        simp only [hc, List.mem_flatMap] at hw
+        obtain ⟨lv, hlv, hwl⟩ := hw
+        simp only [wellNested, hc, List.all_eq_true] at hwn
+        have hl := hwn lv.1 (List.of_mem_zip hlv).1
+        obtain ⟨⟨a, k⟩, v⟩ := lv
+        cases k with
+        | hist n => simp [linkFoot] at hwl
+        | skip => simp [linkFoot] at hwl
+        | plain path acts names =>
+          simp only [Bool.and_eq_true] at hl
+          obtain ⟨hpb, hself⟩ := hl
+          simp only [linkFoot] at hwl
+          cases hr : resolve (hist ++ [i]) path with
+          | none => simp [hr] at hwl
+          | some q =>
+            obtain ⟨r, hrne, rfl⟩ := resolve_child hist i pp path p hp hpb q hr
+            simp only [hr, List.mem_cons, List.mem_map] at hwl
+            rcases hwl with rfl | ⟨act, hact, rfl⟩
+            · exact ⟨r, rfl⟩
+            · have := List.all_eq_true.mp hself act hact
+              cases hd : act.dest with
+              | self j => simp only [Dest.path]; exact dropLast_below p i r hrne _
+              | sec sc j => simp [hd] at this
+        | objs path ccls defaults childNames guards acts names =>
+          simp only [Bool.and_eq_true] at hl
+          obtain ⟨⟨hpb, hself⟩, hchild⟩ := hl
+          simp only [linkFoot] at hwl
+          cases hr : resolve (hist ++ [i]) path with
+          | none => simp [hr] at hwl
+          | some q =>
+            obtain ⟨r, hrne, rfl⟩ := resolve_child hist i pp path p hp hpb q hr
+            cases v with
+            | list os =>
+              simp only [hr, List.mem_cons, List.mem_append, List.mem_map, List.mem_flatMap] at hwl
+              rcases hwl with rfl | ⟨act, hact, rfl⟩ | ⟨oi, hoi, hwc⟩
+              · exact ⟨r, rfl⟩
+              · have := List.all_eq_true.mp hself act hact
+                cases hd : act.dest with
+                | self j => simp only [Dest.path]; exact dropLast_below p i r hrne _
+                | sec sc j => simp [hd] at this
+              · have hlen : (hist ++ [i]).length = hist.length + 1 := by simp
+                have := ih ccls path (hist ++ [i]) oi.2 oi.1 (p ++ Step.idx i :: r) hr (by rw [hlen]; exact hchild) w hwc
+                exact below_trans p i r w oi.2 this
+            | _ => simp [hr] at hwl
+      | _ => simp [hc] at hw
+
+end Aoe.Props.CommitFrame
